@@ -1,6 +1,6 @@
 """C18 - all ways of loading a time zone give the same zone (narrow)."""
 from ..e5 import run_e5
-from ..rules_tz import find_key, parse_order, fold_agree, special_names, handover_civil
+from ..rules_tz import find_key, parse_order, fold_agree, special_names, handover_civil, noop_skip
 
 
 def run(ctx, rep):
@@ -15,3 +15,4 @@ def run(ctx, rep):
     find_key(rep, prog)
     parse_order(rep, prog)
     handover_civil(rep, prog)
+    noop_skip(rep, prog)
